@@ -117,6 +117,36 @@ def case_st(draw):
     return case
 
 
+def enum_long_runs(tier: str):
+    """A broken exporter that fails on every one of more than a thousand events of one run."""
+    for entry in ("Retry.execute", "AsyncRetry.execute", "Policy.execute", "Retry.call"):
+        for n in (1001, 1100) if tier == "quick" else (1001, 1100, 2100):
+            for hook in ("on_metric", "on_log"):
+                yield {
+                    "cfg": {"max_attempts": n, "max_unknown": None, "default": {"vals": [0.0], "style": "ctx"}},
+                    "calls": [{"script": [{"dur": 0, "kind": "exc", "klass": "TRANSIENT"}, {"dur": 0, "kind": "res", "klass": "RATE_LIMIT"}], "cycle": True}],
+                    "placement": {"attempt_hooks": "none", "before": "none"},
+                    "entry": entry,
+                    "always": hook,
+                }
+
+
+def check_long_run(case: dict) -> Verdict:
+    v = Verdict()
+    base = run_case(case, case["entry"])
+    want = observable(case, base)
+    env = run_case(case, case["entry"], faults={(case["always"], "always"): "RuntimeError"})
+    v.evals += 1
+    got = observable(case, env)
+    if got != want:
+        a, b = want[0], got[0]
+        i = next((i for i, (x, y) in enumerate(zip(a, b)) if x != y), min(len(a), len(b)))
+        v.fail(f"C15:long-run:{case['always']}-always-raising", f"{case['entry']} with {case['cfg']['max_attempts']} attempts and {case['always']} raising on every event: run differs at event {i} of {len(a)}/{len(b)}: {str(a[i:i+1])[:300]} vs {str(b[i:i+1])[:300]}")
+    v.nontrivial = True
+    v.tag("long-run")
+    return v
+
+
 PROP = Property(
     id="C15",
     level="fault_enumeration",
@@ -131,5 +161,8 @@ PROP = Property(
         "breaker and budget calls, delivered result) equals the silent-hook trace. Non-trivial = a case with >= 3 hook "
         "invocations and at least one faulted run. evaluations counts runs."
     ),
-    streams=[Stream("hook_faults", check, strategy=case_st(), quick=2500, thorough=60000)],
+    streams=[
+        Stream("hook_faults", check, strategy=case_st(), quick=2500, thorough=60000),
+        Stream("long_runs", check_long_run, enum=enum_long_runs, quick=1, thorough=1),
+    ],
 )
